@@ -160,15 +160,33 @@ def run_shape(prog, shape, tier, seed, res):
             ref = ('ok', R.ref_canon_path(ctx, es, s3))
         except R.RefError as e:
             ref = ('err', e.kind)
+        # yardstick for the known finding F6 only (never an expectation): the same reference with a literal '+' read as a space
+        try:
+            ref6 = ('ok', R.ref_canon_path(ctx, es, s3, plus_is_space=True))
+        except R.RefError as e:
+            ref6 = ('err', e.kind)
+        ctx.x_ref6 = ref6
         again = None
         if r[0] == 'ok':
             again = result_of(m, m.call('canonicalize_uri_path', [mk_str(r[1]), s3], None))
         return ('diff', es, s3, r, ref, again)
 
-    def report(ctx, what, es_list, s3, prop, detail):
-        """prop failed to be valid: classify against known findings and record."""
+    def agrees(r, ref):
+        """z3 condition (or Python bool) under which the code's result r is one the reference `ref` allows."""
+        if r[0] == 'err' or ref[0] == 'err':
+            return r[0] == ref[0] and r[1] == ref[1]
+        alts = [bytes_eq(r[1], x) for x in ref[1] if len(x) == len(r[1])]
+        return zor(*alts) if alts else False
+
+    def report(ctx, what, es_list, s3, prop, detail, r=None):
+        """prop failed to be valid: classify against known findings and record.  A deviation counts as the known finding F6
+        only where the code's result is exactly what the F6 variant of the reference gives (literal '+' read as a space);
+        any other deviation on an input with a '+' is a new violation."""
         allb = [e for es in es_list for e in es]
-        preds = [(k['id'], KNOWN_PREDICATES[k['predicate']](allb)) for k in known if k['predicate'] in KNOWN_PREDICATES]
+        preds = []
+        if r is not None and getattr(ctx, 'x_ref6', None) is not None:
+            f6 = zb(agrees(r, ctx.x_ref6))
+            preds = [(k['id'], zand(KNOWN_PREDICATES[k['predicate']](allb), f6)) for k in known if k['predicate'] in KNOWN_PREDICATES]
         neg = z3.Not(prop) if not isinstance(prop, bool) else z3.BoolVal(not prop)
         q = z3.And(neg, *[z3.Not(zb(p)) for _, p in preds]) if preds else neg
         sat, model = ctx.satisfiable(q)
@@ -221,19 +239,19 @@ def run_shape(prog, shape, tier, seed, res):
         if r[0] == 'err':
             res.witnesses.add('err:' + r[1])
             if ref[0] != 'err':
-                report(ctx, 'code fails (%s) where the reference succeeds' % r[1], [es], s3, False, None)
+                report(ctx, 'code fails (%s) where the reference succeeds' % r[1], [es], s3, False, None, r)
             elif r[1] != ref[1]:
-                report(ctx, 'wrong error kind %s, expected %s' % (r[1], ref[1]), [es], s3, False, None)
+                report(ctx, 'wrong error kind %s, expected %s' % (r[1], ref[1]), [es], s3, False, None, r)
             return
         res.witnesses.add('ok')
         if ref[0] == 'err':
-            report(ctx, 'code succeeds where the reference fails (%s)' % ref[1], [es], s3, False, None)
+            report(ctx, 'code succeeds where the reference fails (%s)' % ref[1], [es], s3, False, None, r)
             return
         alts = [bytes_eq(r[1], x) for x in ref[1] if len(x) == len(r[1])]
         prop = zor(*alts) if alts else False
         okv, _ = ctx.valid(zb(prop))
         if not okv:
-            report(ctx, 'canonical path differs from the reference normal form', [es], s3, zb(prop), None)
+            report(ctx, 'canonical path differs from the reference normal form', [es], s3, zb(prop), None, r)
             return
         # idempotence
         if again is None or again[0] != 'ok' or len(again[1]) != len(r[1]):
@@ -248,10 +266,10 @@ def run_shape(prog, shape, tier, seed, res):
 
 # --------------------------------------------------------------------------- concrete reference + replay
 
-def ref_concrete(path, s3):
+def ref_concrete(path, s3, f6=False):
     ctx = RefCtx()
     try:
-        outs = R.ref_canon_path(ctx, conc_bytes(path.encode('latin-1')), s3)
+        outs = R.ref_canon_path(ctx, conc_bytes(path.encode('latin-1')), s3, plus_is_space=f6)
         return ('ok', [bytes(e.v for e in o).decode('latin-1') for o in outs])
     except R.RefError as e:
         return ('err', e.kind)
@@ -333,6 +351,12 @@ def replay_finding(rp, f):
         rep = n0[1] not in ref[1]
         if not rep and 'idempotent' in f.what:
             rep = native(rp, n0[1], s3) != n0
+    if rep and f.known:
+        # a known finding is only confirmed as such if the native result is exactly what the F6 variant gives
+        ref6 = ref_concrete(paths[0], s3, f6=True)
+        same6 = (n0[0] == ref6[0]) and ((n0[1] == ref6[1]) if n0[0] == 'err' else (n0[1] in ref6[1]))
+        if not same6:
+            f.known = None
     return rep, {'native': nat, 'reference': ref}
 
 
